@@ -63,6 +63,11 @@ def gen_removed(run):
         if nn < 2: continue
         k = rng.randrange(1, min(3, nn))
         removed = rng.sample(range(nn), k)
+        if nn >= 4 and rng.random() < 0.5:
+            # two removals, one of them the index that equals the node count afterwards: then "last index = node count" is not a
+            # live node and the reachability oracle applies, while live indices above the node count exist
+            other = rng.choice([x for x in range(nn) if x != nn - 2])
+            removed = sorted({nn - 2, other})
         live = [i for i in range(nn) if i not in removed]
         calls = []
         for _ in range(rng.randrange(1, 6)):
@@ -99,6 +104,30 @@ def oracle_removed(case, impl, spec):
         if ag[0] != (1 if cnt == nlive else 0): return f"after call {i}: all_active={ag[0]} but {cnt}/{nlive} live members active (removed {sorted(removed)})"
         if ag[1] != fbits(float(cnt)): return f"after call {i}: number_active differs from the recount {cnt} over the live members {mem} (removed {sorted(removed)})"
         if nlive > 0 and ag[2] != fbits(cnt / nlive * 100.0): return f"after call {i}: percent_active differs from {cnt}/{nlive}*100"
+    # REACHABILITY: a true verdict of reason_all_causes / reason_subgraph_from_cause means every LIVE causaloid reachable from the start
+    # over the remaining edges was evaluated (each evaluation is logged with its observation = 10 * id + code). Judged only when the
+    # node count is not itself a live index: the traversal stops at "last index = node count", which on a graph with removed
+    # causaloids can be a live node (then the original code may legitimately cut the walk short)
+    live = [k for k in range(case.meta["n"]) if k not in removed]
+    if nlive not in live and top.get("kind") == 2:
+        ids = [kd["id"] for kd in top["kids"]]
+        succ = {k: [] for k in live}
+        for (x, y, w) in top["edges"]:
+            if x in succ and y in succ and y not in succ[x]: succ[x].append(y)
+        for i, (c, sg) in enumerate(zip(calls, segs)):
+            if c["code"] not in (0, 1) or sg["res"] != 1: continue
+            start = top["root"] if c["code"] == 0 else c["a"]
+            if start not in succ: continue
+            seen = {start}; todo = [start]
+            while todo:
+                x = todo.pop()
+                for y in succ[x]:
+                    if y not in seen: seen.add(y); todo.append(y)
+            evaluated = {o // 10 for (_, o) in sg["log"]}
+            missing = sorted(k for k in seen if ids[k] < len(c["data"]) and ids[k] not in evaluated)
+            if missing:
+                return (f"call {i} returned true but the live causaloid(s) at index {missing} (ids {[ids[k] for k in missing]}), reachable from index {start} over the remaining edges, "
+                        f"were never evaluated (removed {sorted(removed)}, evaluated ids {sorted(evaluated)})")
     return None
 
 
